@@ -466,6 +466,8 @@ def coerce(val: SV, ty: Ty) -> SV:
             return SV(ty, (val.v[0], coerce(val.v[1], ty.inner)))
         return SV(ty, (z3.BoolVal(False), coerce(val, ty.inner)))
     if k == "ref":
+        if val.ty.kind == "func" and isinstance(val.v, ExcV) and val.v.ref is not None:
+            return SV(ty, val.v.ref.v)  # an exception instance used as an object
         if val.ty.kind == "none":
             return null_ref(ty.cls)
         if val.ty.kind == "ref":
